@@ -104,11 +104,9 @@ func init() {
 func init() {
 	del := func(fr *frame, a []value) value {
 		s := a[0].([]value)
-		i, iok := a[1].(int)
-		j, jok := a[2].(int)
-		if !iok || !jok {
-			panic(unsupported("slices.Delete with symbolic indices"))
-		}
+		// symbolic indices (a merged `if` choosing the index): fork over their feasible values
+		i := int(asInt64(concretize(a[1])))
+		j := int(asInt64(concretize(a[2])))
 		if i < 0 || j < i || j > len(s) {
 			panic(runtimeError("slice bounds out of range"))
 		}
